@@ -164,7 +164,7 @@ Record config := mkConfig {
 Record pstate := mkState {
   st_request : request;             (* self.request as left by the chains *)
   st_upstream : bool;               (* self.upstream is not None *)
-  st_pipeline : option (request * bytes)   (* a COMPLETE self.pipeline_request that was kept, and its .buffer (bytes received after it) *)
+  st_pipeline : option request      (* a COMPLETE self.pipeline_request that was kept (its rq_buffer: bytes received after it) *)
 }.
 
 (* how a piece of handler code ended *)
@@ -282,21 +282,22 @@ Definition is_connection_upgrade (r : request) : bool :=
 Inductive parse_result := PPartial | PComplete (r : request) (rem : bytes).
 
 (* a complete later request goes through the handle_client_request chain and is rebuilt like the first
-   one; [buf] is the parser's buffer.  Third component: the remainder `_on_client_data` returns *)
-Definition run_later (cf : config) (ps : list plugin) (st : pstate) (pr : request) (buf : bytes) (l : log)
+   one.  Third component: the remainder `_on_client_data` returns, i.e. the `.buffer` of the object the chain
+   ended with — if a hook returned a NEW object the bytes that followed the request in the same piece are lost. *)
+Definition run_later (cf : config) (ps : list plugin) (st : pstate) (pr : request) (l : log)
     : log * step_end * option bytes :=
   let '(l1, e) := chain HCR ARequest handle_client_request ps pr l in
   match norm_end e with
   | Done r1 =>
       let '(l2, r2, f) := queue_request_for_upstream cf (rq_tunnel (st_request st)) r1 l1 in
       match f with
-      | None => (l2, Continue (mkState (st_request st) true (if is_connection_upgrade r2 then Some (r2, []) else None)),
-                 nonempty (Some buf))                     (* remainder = buffer; buffer = None *)
-      | Some f => (l2, Failed (mkState (st_request st) true (Some (r2, buf))) f, None)
+      | None => (l2, Continue (mkState (st_request st) true (if is_connection_upgrade r2 then Some (set_buffer r2 []) else None)),
+                 nonempty (Some (rq_buffer r2)))          (* remainder = buffer; buffer = None *)
+      | Some f => (l2, Failed (mkState (st_request st) true (Some r2)) f, None)
       end
-  | Dropped rx => (l1, Continue (mkState (st_request st) true (Some (rx, buf))), None)    (* `return None`: the complete parser is kept *)
-  | Rejected rx resp => (l1, Failed (mkState (st_request st) true (Some (rx, buf))) (FReject resp), None)
-  | Raised rx x => (l1, Failed (mkState (st_request st) true (Some (rx, buf))) (FRaise x), None)
+  | Dropped rx => (l1, Continue (mkState (st_request st) true (Some rx)), None)    (* `return None`: the complete parser is kept *)
+  | Rejected rx resp => (l1, Failed (mkState (st_request st) true (Some rx)) (FReject resp), None)
+  | Raised rx x => (l1, Failed (mkState (st_request st) true (Some rx)) (FRaise x), None)
   end.
 
 (* the loop over a fresh / partially fed pipeline parser *)
@@ -305,7 +306,7 @@ Fixpoint client_loop (cf : config) (ps : list plugin) (st : pstate) (parses : li
   match parses with
   | [] | PPartial :: _ => (l, Continue st)                 (* not complete yet: `return None` *)
   | PComplete pr rem :: t =>
-      match run_later cf ps st pr rem l with
+      match run_later cf ps st (set_buffer pr rem) l with
       | (l1, Continue st1, Some rem') =>                   (* forwarded; the bytes after it are further client data *)
           match st_pipeline st1 with
           | Some _ => (l1 ++ [QueueUpstream QRaw rem'], Continue st1)     (* an upgrade was forwarded: relayed verbatim *)
@@ -326,11 +327,11 @@ Definition on_client_data (cf : config) (ps : list plugin) (st : pstate) (raw : 
   else if rq_tunnel (st_request st) then (l ++ [QueueUpstream QRaw raw], Continue st)
   else
     match st_pipeline st with
-    | Some (pr, buf) =>
+    | Some pr =>
         if is_connection_upgrade pr then (l ++ [QueueUpstream QRaw raw], Continue st)
         else
           (* parse() on the kept COMPLETE parser only appends to its buffer; the chain runs again on the same request *)
-          match run_later cf ps st pr (buf ++ raw) l with
+          match run_later cf ps st (set_buffer pr (rq_buffer pr ++ raw)) l with
           | (l1, Continue st1, Some rem') =>
               match st_pipeline st1 with
               | Some _ => (l1 ++ [QueueUpstream QRaw rem'], Continue st1)
